@@ -38,9 +38,10 @@ Theorem C11_opset_ok_sound_functions : forall m, opset_ok m = true ->
 Proof. exact opset_ok_sound_functions. Qed.
 Print Assumptions C11_opset_ok_sound_functions.
 
-(* (V) ... and a function never declares another version of a domain than the model *)
+(* (V) ... and a function never declares another version of an ONNX-defined domain ("", "ai.onnx", "ai.onnx.ml") than the model *)
 Theorem C11_function_imports_agree : forall m, opset_ok m = true ->
-  forall f d v, In f (om_functions m) -> In (d, v) (of_opsets f) -> opset_of (om_opsets m) d = Some v.
+  forall f d v, In f (om_functions m) -> In (d, v) (of_opsets f) -> domain_table d <> None ->
+  opset_of (om_opsets m) d = Some v.
 Proof. exact opset_ok_function_imports. Qed.
 Print Assumptions C11_function_imports_agree.
 
